@@ -7,6 +7,7 @@ package datasource
 //   round-trip   for each module, a rule list rendered in the module's wire format (the JSON tags of its Rule type;
 //                hotspot specific items as {valKind,valStr,threshold}) is delivered to a fresh handler; the rules
 //                in force afterwards (module GetRules) must equal the list, field by JSON-tagged field
+//   whitespace   the valid payload with a trailing newline / surrounding blanks is accepted like the bare one
 //   corpus       [null], mixed null/valid, wrongly typed elements, non-arrays, a complete array followed by left-over bytes, every VERIF_BOUND-th truncation of the
 //                valid payload: Handle never panics; an error leaves the previous rules in force; success puts exactly
 //                the valid rules of the independently decoded list in force
@@ -339,6 +340,18 @@ func TestVerifBounded(t *testing.T) {
 		}
 		if dv, ok := m.decodeValid(pa); !ok || !sameStrings(dv, wantA) {
 			fail("check=harness module=%s: the independent decoder disagrees with the written rules: %v", m.name, dv)
+		}
+
+		// ---- insignificant whitespace around the document (every hand-edited file ends in a newline) changes nothing
+		for _, padded := range [][]byte{append(append([]byte{}, pa...), '\n'), append(append([]byte(" \t"), pa...), []byte("\r\n")...), append([]byte("\n"), pa...)} {
+			cases++
+			m.clear()
+			hw := NewDefaultPropertyHandler(m.parser, m.updater)
+			if err, esc := deliver(hw, padded); err != nil || esc != nil {
+				fail("check=round-trip-whitespace module=%s payload=%q: valid payload with surrounding whitespace rejected: err=%v panic=%v", m.name, padded, err, esc)
+			} else if got := m.inForce(); !sameStrings(got, wantA) {
+				fail("check=round-trip-whitespace module=%s: rules in force differ from the rules written (- written, + in force):%s", m.name, diff(wantA, got))
+			}
 		}
 
 		// ---- malformed corpus on a fresh handler, previous rules = set B
